@@ -282,9 +282,42 @@ class EquationParser(object):
                 if var == self.CleanupRightHandSide(self.AllEquations[rhs]):
                     raise ValueError('Equality loop between ' + rhs + ' and ' + var)
                 for other in self.AllEquations:
-                    self.AllEquations[other] = str(replace_token(self.AllEquations[other], var, rhs).replace(' ', ''))
+                    self.AllEquations[other] = self.SqueezeSpaces(replace_token(self.AllEquations[other], var, rhs))
                     self.Tokens[other] = list_tokens(self.AllEquations[other])
         self.RebuildEquations()
+
+    @staticmethod
+    def SqueezeSpaces(s):
+        """
+        Remove the blanks from an expression - except inside string literals and between two
+        tokens that would otherwise run together.
+
+        >>> EquationParser.SqueezeSpaces('t +1 ')
+        't+1'
+        >>> EquationParser.SqueezeSpaces('f ("a b")*x if x <y else 2')
+        'f("a b")*x if x<y else 2'
+
+        :param s: str
+        :return: str
+        """
+        out = []
+        quote = None
+        s = str(s).strip()
+        for pos, ch in enumerate(s):
+            if quote is not None:
+                if ch == quote:
+                    quote = None
+            elif ch in '"\'':
+                quote = ch
+            elif ch == ' ':
+                rest = s[pos:].lstrip(' ')
+                joins_words = (len(out) > 0 and len(rest) > 0 and (out[-1].isalnum() or out[-1] in '_.')
+                               and (rest[0].isalnum() or rest[0] in '_.'))
+                if joins_words and out[-1] != ' ':
+                    out.append(' ')
+                continue
+            out.append(ch)
+        return ''.join(out)
 
     def RebuildEquations(self):
         """
